@@ -41,6 +41,7 @@ func zzGet(c *Client, f *glf.Filter, start, limit uint64) (blocks []eth.Block, e
 // base in {none, headers, blocks} and extra in {none, logs, receipts, traces}.
 func ZZ_C07_Get(plan, limit, noErrors, budget int) {
 	zzMode, zzCalls, zzGhost, zzTraceCall = 0, 0, nil, 0
+	zzErrSeen = false
 	zzBudget = budget
 	zzNoErrors = noErrors == 1
 	zzMaxItems = 2
@@ -56,6 +57,8 @@ func ZZ_C07_Get(plan, limit, noErrors, budget int) {
 		zzvrf.Reach("end")
 		return
 	}
+	// V4: an answer carrying an error member (code != 0) is never accepted
+	zzvrf.Assert(!zzErrSeen, "V4-error-member-is-an-error")
 	zzvrf.Reach("accepted")
 	// V1: exactly the requested consecutive numbers
 	zzvrf.Assert(len(blocks) == limit, "V1-block-count")
@@ -124,6 +127,7 @@ func ZZ_C07_Get(plan, limit, noErrors, budget int) {
 // ZZ_C07_HeadHash: Latest and Hash against an adversarial node.
 func ZZ_C07_HeadHash(which int) {
 	zzMode, zzCalls = 0, 0
+	zzErrSeen = false
 	zzBudget = 1
 	zzNoErrors = false
 	c := New("http://node")
@@ -142,7 +146,11 @@ func ZZ_C07_HeadHash(which int) {
 			_, err = c.Hash(context.Background(), "http://node", zzvrf.U64("n"))
 		}
 	}()
-	_ = err
 	zzvrf.Assert(!panicked, "no-panic")
+	if !panicked && err == nil {
+		// an error member next to a result is still an error
+		zzvrf.Assert(!zzErrSeen, "V4-error-member-is-an-error")
+		zzvrf.Reach("accepted")
+	}
 	zzvrf.Reach("end")
 }
